@@ -19,6 +19,9 @@ type E struct {
 	S    string    // ref address / raw text
 	Kids []*E      // list elements, obj values, tmpl parts
 	Keys []string  // obj keys (rendered as written: ident, "quoted", (expr))
+	// Legacy: in JSON the reference is written as a bare string (no "${...}"),
+	// which the decoder accepts where the constraint is a Reference.
+	Legacy bool
 }
 
 func lit(v cty.Value) *E { return &E{K: "lit", V: v} }
@@ -679,7 +682,9 @@ func (g *G) Expr(c schema.Constraint, depth int, locals []Decl) *E {
 			// the written traversal becomes a declaration itself: no block-local names
 			return ref(g.refTo(nil, sc, c.OfType))
 		}
-		return ref(g.refTo(locals, sc, c.OfType))
+		r := ref(g.refTo(locals, sc, c.OfType))
+		r.Legacy = g.O.Simple && g.coin(0.5)
+		return r
 	case schema.List:
 		if c.Elem == nil {
 			return list()
